@@ -117,6 +117,9 @@ func genStringField(rt *rapid.T, label, name string, env *fillEnv) string {
 		if r == 1 && len(env.Names) > 0 {
 			return pick(env.Names)
 		}
+		if r == 2 {
+			return strings.ToUpper(pick(env.Accounts)) // all-upper-case bech32: same account, other spelling
+		}
 		return pick(env.Accounts)
 	case lname == "name":
 		if r == 0 {
